@@ -1101,6 +1101,19 @@ func condValuePhiInt(cond ssa.Value, assumes []Assume, phiVals map[*ssa.Phi]bool
 				return a.Val, true
 			}
 		}
+		// the same comparison written the other way round (`x != nil` where the scenario speaks of `x == nil`,
+		// `a >= b` for `a < b`): the complement of what was assumed
+		if bo, ok := cond.(*ssa.BinOp); ok {
+			comp := map[token.Token]token.Token{token.EQL: token.NEQ, token.NEQ: token.EQL, token.LSS: token.GEQ, token.GEQ: token.LSS, token.GTR: token.LEQ, token.LEQ: token.GTR}
+			if cop, isCmp := comp[bo.Op]; isCmp {
+				ct := "(" + Term(bo.X) + " " + cop.String() + " " + Term(bo.Y) + ")"
+				for _, a := range assumes {
+					if regexpMustCompile(a.Re).MatchString(ct) {
+						return !a.Val, true
+					}
+				}
+			}
+		}
 	}
 	// comparison of a result of a transparent helper: decided from what this path returned
 	if bo, ok := cond.(*ssa.BinOp); ok && len(activePathRets) > 0 {
